@@ -156,7 +156,11 @@ def run_case(spec):
                       {'name': 'g', 'numprocesses': 1, 'singleton': True, 'graceful_timeout': 0.1},
                       {'name': 'h', 'numprocesses': 1, 'autostart': False, 'graceful_timeout': 0.1,
                        'hooks': {'after_start': ['raise', False]}},
-                      {'name': 'e', 'numprocesses': 1, 'autostart': False, 'max_retry': 1, 'graceful_timeout': 0.1}],
+                      {'name': 'e', 'numprocesses': 1, 'autostart': False, 'max_retry': 1, 'graceful_timeout': 0.1},
+                      # rarely used options that change what an operation returns
+                      {'name': 'u', 'numprocesses': 2, 'send_hup': True, 'graceful_timeout': 0.1},
+                      {'name': 'r', 'numprocesses': 1, 'respawn': False, 'graceful_timeout': 0.1,
+                       'stop_children': True, 'max_age': 1000}],
          'frames': spec.get('frames')}
     w = simhist.new_world(h)
     nv = len(res.viol)
@@ -177,7 +181,7 @@ def _daemon(w, h, rnd, res):
     yield simhist.boot(w, h)
     yield w.settle(30)
     cmds = commands()
-    names = ['a', 'b', 'g', 'h', 'e', 'q']
+    names = ['a', 'b', 'g', 'h', 'e', 'q', 'u', 'r']
 
     class Sink:                     # embedding-API style stream object: not JSON-serialisable
         def __call__(self, data):
